@@ -35,6 +35,9 @@ pub struct Lz77Params {
     /// no matches at all: every byte is a literal (with a huge block_tokens this gives one
     /// block with more than 2^20 tokens for inputs above 1 MiB)
     pub literals_only: bool,
+    /// code length 258 as symbol 284 with extra bits 31 instead of symbol 285 (legal, never
+    /// emitted by the mainstream compressors)
+    pub irregular_258: bool,
 }
 
 impl Lz77Params {
@@ -66,12 +69,13 @@ impl Lz77Params {
             stored_every: if rng.chance(1, 5) { rng.range(2, 5) as usize } else { 0 },
             empty_run: if rng.chance(1, 6) { *rng.pick(&[1usize, 2, 5, 16, 17, 18, 40]) } else { 0 },
             literals_only: false,
+            irregular_258: rng.chance(1, 10),
         }
     }
 
     pub fn describe(&self) -> String {
         format!(
-            "lz77(w={},h={},ins={}{},lazy={:?},nice={},chain={},d3={},start={},far={},blk={},stored/{},empty={},lit={})",
+            "lz77(w={},h={},ins={}{},lazy={:?},nice={},chain={},d3={},start={},far={},blk={},stored/{},empty={},lit={},irr258={})",
             self.window_bits,
             self.hash_bytes,
             self.insert_limit,
@@ -85,7 +89,8 @@ impl Lz77Params {
             self.block_tokens,
             self.stored_every,
             self.empty_run,
-            self.literals_only as u8
+            self.literals_only as u8,
+            self.irregular_258 as u8
         )
     }
 }
@@ -326,7 +331,10 @@ pub fn encode(data: &[u8], p: &Lz77Params) -> Vec<u8> {
                 match *t {
                     Tok::Lit(c) => fixed_litlen(&mut w, c as u32),
                     Tok::Ref(len, dist) => {
-                        let li = (0..29).rev().find(|&i| LEN_BASE[i] <= len).unwrap();
+                        let mut li = (0..29).rev().find(|&i| LEN_BASE[i] <= len).unwrap();
+                        if len == 258 && p.irregular_258 {
+                            li = 27; // symbol 284, base 227, 5 extra bits = 31
+                        }
                         fixed_litlen(&mut w, 257 + li as u32);
                         w.bits(len - LEN_BASE[li], LEN_EXTRA[li]);
                         let di = (0..30).rev().find(|&i| DIST_BASE[i] <= dist).unwrap();
